@@ -38,7 +38,8 @@ def mmb(tag, present):
     idx = bytearray(8192)
     table = {}
     for sl in range(511):
-        idx[16 * (sl + 1) + 15] = 0x0F if sl in present else 0xF0
+        # other slots: unformatted, except one of unknown type (reported on stderr) and one marked invalid
+        idx[16 * (sl + 1) + 15] = 0x0F if sl in present else 0x42 if sl == 3 else 0xFF if sl == 7 else 0xF0
     for k in range(32):
         table[k] = bytes(idx[k * 256:(k + 1) * 256])
     for sl in present:
